@@ -630,7 +630,7 @@ Definition op_pre2 (A : astate) (o : op) : Prop :=
 
 Lemma R_cache_fields w A c n : R w A -> R (w <| w_cache := c |> <| w_cnext := n |>) A.
 Proof.
-  intros HR. pose proof HR as [[[S G] P L] Hr Hu Hl He].
+  intros HR. pose proof HR as [[[S G] P L] Hr Hu He].
   apply (R_transfer w); try done.
   split; [split|done|done].
   - destruct S as [S1 S2 S3 S4]. split; [exact S1|exact S2|exact S3|exact S4].
@@ -645,7 +645,7 @@ Proof.
   assert (Hcore : op_pre A o -> cache_ok (res_world (step w o)) ->
                   R (res_world (step w o)) (astep A o (snd (fst (step w o)))) /\ cache_ok (res_world (step w o))).
   { intros Hp Hc. split; [by apply rel_step|done]. }
-  pose proof HR as [K Hr Hu Hl He].
+  pose proof HR as [K Hr Hu He].
   destruct o; try (by destruct Hpre); simpl in Hpre; try (apply Hcore; [exact Hpre|]); simpl.
   - (* ONew *)
     destruct (op_new w ids []) as [[w' out] evs] eqn:H. simpl.
@@ -714,6 +714,7 @@ Proof.
     by apply R_cache_fields.
   - (* ORegister *)
     destruct (register_comp w key isrel zs) as [[w1 id]|] eqn:H; simpl; [|done]. by eapply cache_ok_register.
+  - (* OSetListener *) exact C.
 Qed.
 
 Fixpoint pre_run2 (w : world) (A : astate) (ops : list op) : Prop :=
